@@ -48,12 +48,23 @@ def _body(node):
     return body
 
 
+_CONST_MODULE = None      # module whose integer constants a Name in a comparison may refer to
+
+
 def _int_const(node):
-    """an integer literal, possibly negated / a closed arithmetic expression of literals"""
-    if any(isinstance(n, (ast.Name, ast.Call, ast.Attribute, ast.Subscript, ast.Lambda)) for n in ast.walk(node)):
+    """an integer literal, possibly negated / a closed arithmetic expression of literals and of module-level
+    integer constants (`_UINT16_MAX`)"""
+    if any(isinstance(n, (ast.Call, ast.Attribute, ast.Subscript, ast.Lambda)) for n in ast.walk(node)):
         return None
+    env = {}
+    for n in ast.walk(node):
+        if isinstance(n, ast.Name):
+            val = getattr(_CONST_MODULE, n.id, None) if _CONST_MODULE is not None else None
+            if type(val) is not int:
+                return None
+            env[n.id] = val
     try:
-        v = eval(compile(ast.Expression(node), "<fact>", "eval"), {"__builtins__": {}}, {})
+        v = eval(compile(ast.Expression(node), "<fact>", "eval"), {"__builtins__": {}}, env)
     except Exception:
         return None
     if isinstance(v, bool) or not isinstance(v, int):
@@ -356,6 +367,9 @@ def setattr_facts(base):
                 names.add("slots")
             elif _is_name(c, "field_type"):
                 names.add("ftype")
+            elif (isinstance(c, ast.UnaryOp) and isinstance(c.op, ast.Not)
+                  and _is_isinstance_call(c.operand, "v", lambda n: _is_name(n, "field_type"))):
+                names.add("isinstance")        # the isinstance test merged into the guard
             else:
                 raise Unsupported("%s: unrecognised conjunct `%s` in the guard" % (_where(fn, c), ast.unparse(c)))
         inner = st.body
@@ -499,13 +513,19 @@ def typedlist_facts(ft):
     node = _fn(fn)
     var = node.args.args[1].arg
     body = _body(node)
+    aliases = set()
+    while len(body) > 1 and isinstance(body[0], ast.Assign) and len(body[0].targets) == 1 and isinstance(body[0].targets[0], ast.Name) \
+            and isinstance(body[0].value, ast.Attribute) and body[0].value.attr == "__type__" and _is_name(body[0].value.value, "self"):
+        aliases.add(body[0].targets[0].id)       # element_type = self.__type__
+        body = body[1:]
     if not (len(body) == 1 and isinstance(body[0], ast.Return)):
         raise Unsupported("%s: body is not one return" % _where(fn))
     e = body[0].value
     convert = None
 
     def is_type(n):
-        return isinstance(n, ast.Attribute) and n.attr == "__type__" and _is_name(n.value, "self")
+        return (isinstance(n, ast.Attribute) and n.attr == "__type__" and _is_name(n.value, "self")) or \
+            (isinstance(n, ast.Name) and n.id in aliases)
     if isinstance(e, ast.ListComp) and len(e.generators) == 1 and not e.generators[0].ifs and _is_name(e.generators[0].iter, var) \
             and isinstance(e.generators[0].target, ast.Name):
         f = e.generators[0].target.id
@@ -630,10 +650,292 @@ def ip_facts(ip):
             raise Unsupported("%s defines __new__" % cls.__name__)
 
 
+# ------------------------------------------------------------------------------------------
+# observed behaviour (the facts are derived from these; the recognisers above are cross-checks)
+
+def _try(f, *a):
+    try:
+        return True, f(*a)
+    except Exception as e:  # noqa: the refusal is the observation
+        return False, e
+
+
+def observe_range(cls, name):
+    """the accepted integers are an interval [lo, hi] (bisection + a dense check around the ends and at all powers
+    of two); how the ends treat non-integral values; whether a non-integral value inside is refused; what .value is"""
+    acc = lambda z: _try(cls, z)[0]  # noqa: E731
+    seeds = [z for z in (0, 1, 2, 255, 65535, 2 ** 31, 2 ** 32 - 1, -1) if acc(z)]
+    if not seeds:
+        raise Unsupported("%s accepts none of the probe integers" % name)
+    a = seeds[0]
+    far = 2 ** 80
+    if acc(-far) or acc(far):
+        raise Unsupported("%s accepts integers of magnitude 2**80" % name)
+    lo_rej, lo_acc = -far, a
+    while lo_acc - lo_rej > 1:
+        m = (lo_rej + lo_acc) // 2
+        if acc(m):
+            lo_acc = m
+        else:
+            lo_rej = m
+    hi_acc, hi_rej = a, far
+    while hi_rej - hi_acc > 1:
+        m = (hi_acc + hi_rej) // 2
+        if acc(m):
+            hi_acc = m
+        else:
+            hi_rej = m
+    lo, hi = lo_acc, hi_acc
+    check = set(range(lo - 300, lo + 300)) | set(range(hi - 300, hi + 300)) | {s * 2 ** k + d for k in range(72) for d in (-1, 0, 1) for s in (1, -1)}
+    for z in sorted(check):
+        if acc(z) != (lo <= z <= hi):
+            raise Unsupported("%s: the accepted integers are not the interval [%d, %d]: %d is %s" % (
+                name, lo, hi, z, "accepted" if acc(z) else "refused"))
+    for b in (False, True):
+        if acc(b) != (lo <= int(b) <= hi):
+            raise Unsupported("%s treats %r unlike the integer %d" % (name, b, int(b)))
+    if hi <= lo:
+        raise Unsupported("%s accepts a single integer" % name)
+    integral = not acc(lo + 0.5)
+    if integral:
+        # every non-integral value is refused, so `value < lo` and `value <= lo - 1` cannot be told apart: canonical form
+        lo_fact, hi_fact = (lo, "LoLt"), (hi, "HiGt")
+        for f in (float(lo), float(hi), float(lo + 1)):
+            if not acc(f):
+                raise Unsupported("%s refuses the integral float %r inside its range" % (name, f))
+    else:
+        lo_fact = (lo - 1, "LoLe") if acc(lo - 0.5) else (lo, "LoLt")
+        hi_fact = (hi + 1, "HiGe") if acc(hi + 0.5) else (hi, "HiGt")
+    one = cls(lo + 1)
+    if int(one) != lo + 1 or one.value != lo + 1:
+        raise Unsupported("%s(%d) is stored as %r / %r" % (name, lo + 1, int(one), one.value))
+    return (lo_fact[0], lo_fact[1], hi_fact[0], hi_fact[1]), integral
+
+
+def observe_uint_keeps(cls, name, integral):
+    kinds = {type(cls(True).value)}
+    if not integral:
+        kinds.add(type(cls(1.5).value) if _try(cls, 1.5)[0] else None)
+    kinds.add(type(cls(1.0).value))
+    if kinds == {int}:
+        return False
+    if int not in kinds and None not in kinds:
+        return True          # bool stays bool, float stays float: the argument itself is kept
+    raise Unsupported("%s keeps %r as packed values for True / 1.0 / 1.5" % (name, sorted(map(str, kinds))))
+
+
+def observe_bytes(ft):
+    ok, _ = _try(ft.bytes, b"x")
+    if not ok:
+        raise Unsupported("fieldtypes.bytes refuses bytes")
+    refused = [not _try(ft.bytes, v)[0] for v in (bytearray(b"x"), 3, [1, 2], memoryview(b"ab"))]
+    if all(refused):
+        return True
+    if not any(refused):
+        return False
+    raise Unsupported("fieldtypes.bytes refuses some non-bytes values and accepts others")
+
+
+def observe_string(ft):
+    v = ft.string(b"a\xff")
+    if v == "a\udcff":
+        return True
+    if v == str(b"a\xff"):
+        return False
+    raise Unsupported("string(b'a\\xff') is %r" % (v,))
+
+
+def observe_digest(ft):
+    lens = []
+    for pos in range(3):
+        accepted = []
+        for n in range(0, 41):
+            t = [None, None, None]
+            t[pos] = "ab" * n
+            if _try(ft.digest, tuple(t))[0]:
+                accepted.append(n)
+        if len(accepted) != 1:
+            raise Unsupported("digest accepts hex text of %r bytes in position %d" % (accepted, pos))
+        lens.append(accepted[0])
+    ok_none, d = _try(ft.digest, None)
+    if not ok_none or d._pack() != (None, None, None):
+        raise Unsupported("digest(None) is not the empty digest")
+    answers = set()
+    for v in ("ab" * 16, b"ab" * 16, 5, 1.5, object()):
+        ok, d = _try(ft.digest, v)
+        answers.add("empty" if ok and d._pack() == (None, None, None) else ("raise" if not ok else "other"))
+    if answers == {"empty"}:
+        return True, tuple(lens)
+    if answers == {"raise"}:
+        return False, tuple(lens)
+    raise Unsupported("digest(<not a tuple/list/dict>) behaves inconsistently: %r" % sorted(answers))
+
+
+def observe_setattr(base, ft):
+    import datetime as _pydt
+    t0 = _pydt.datetime(2020, 1, 1, tzinfo=_pydt.timezone.utc)
+    d = base.RecordDescriptor("c05/probe", [("varint", "n"), ("string", "s"), ("uint16", "u"), ("bytes", "b")])
+    r = d.recordType(n=1, s="a", u=5, b=b"x", _generated=t0)
+    # the coercion funnel: every kind of value ends up as an instance of the declared class
+    for field, value, cls in (("n", "7", ft.varint), ("n", 7.9, ft.varint), ("s", b"x", ft.string), ("s", 5, ft.string),
+                              ("u", 7, ft.uint16), ("u", True, ft.uint16), ("_source", b"src", ft.string)):
+        setattr(r, field, value)
+        if not isinstance(getattr(r, field), cls):
+            raise Unsupported("Record.__setattr__ stored %r in the %s field as a %s" % (value, field, type(getattr(r, field)).__name__))
+    inst = ft.varint(9)
+    r.n = inst
+    if r.n is not inst:
+        raise Unsupported("Record.__setattr__ does not keep a value that is an instance of the field type")
+    r.s = None
+    if r.s is None:
+        guard_none = True
+    elif r.s == "None":
+        guard_none = False
+    else:
+        raise Unsupported("assigning None stored %r" % (r.s,))
+    r.u = 5
+    ok, e = _try(setattr, r, "u", "not-a-number")
+    if ok:
+        raise Unsupported("assigning 'not-a-number' to a uint16 field is accepted")
+    if isinstance(r.u, ft.uint16) and r.u == 5:
+        before = True
+    elif r.u == "not-a-number":
+        before = False
+    else:
+        raise Unsupported("after a failed assignment the slot holds %r" % (r.u,))
+    ok, e = _try(setattr, r, "no_such_field", 1)
+    if ok or not isinstance(e, AttributeError):
+        raise Unsupported("assigning an attribute that is not a field does not raise AttributeError")
+    return guard_none, before
+
+
+def observe_grouped(base, ft):
+    import datetime as _pydt
+    t0 = _pydt.datetime(2020, 1, 1, tzinfo=_pydt.timezone.utc)
+    a = base.RecordDescriptor("c05/ga", [("varint", "n"), ("uint16", "u")]).recordType(n=1, u=5, _generated=t0)
+    b = base.RecordDescriptor("c05/gb", [("string", "s")]).recordType(s="x", _generated=t0)
+    g = base.GroupedRecord("c05/g", [a, b])
+    g.n = "7"
+    g.s = b"y"
+    conv = isinstance(a.n, ft.varint) and a.n == 7 and isinstance(b.s, ft.string) and b.s == "y"
+    raw = a.n == "7" and b.s == b"y"
+    refused = not _try(setattr, g, "u", 70000)[0]
+    if conv and refused and a.u == 5:
+        return True
+    if raw and not refused and a.u == 70000:
+        return False
+    raise Unsupported("assignment through a GroupedRecord: n=%r s=%r u=%r" % (a.n, b.s, a.u))
+
+
+def observe_typedlist(base, ft):
+    u16 = base.fieldtype("uint16[]")
+    s_l = base.fieldtype("string[]")
+    v_l = base.fieldtype("varint[]")
+    plain = u16([1, 2])
+    kinds = {type(x) for x in plain}
+    if kinds == {ft.uint16}:
+        convert = True
+    elif kinds == {int}:
+        convert = False
+    else:
+        raise Unsupported("uint16[]([1, 2]) holds %r" % kinds)
+    inst = ft.uint16(3)
+    if u16([inst])[0] is not inst:
+        raise Unsupported("typedlist does not keep an element that is an instance of the element type")
+    if convert:
+        # EVERY element that is not an instance of the element type is converted: other field types, None, members of
+        # another flow.record list, of a tuple, of a generator
+        probes = [("a varint", u16, [ft.varint(4)], ft.uint16), ("a string", u16, [ft.string("5")], None), ("None", s_l, [None], ft.string),
+                  ("a varint[] list", u16, v_l([5, 6]), ft.uint16), ("a tuple", u16, (7,), ft.uint16),
+                  ("a stringlist", s_l, ft.stringlist([b"x"]), ft.string), ("a generator", u16, (x for x in [8]), ft.uint16)]
+        for what, lst, values, cls in probes:
+            ok, res = _try(lst, values)
+            if cls is None:
+                if ok:
+                    raise Unsupported("uint16[] keeps %s unconverted" % what)
+                continue
+            if not ok or not res or not all(type(x) is cls for x in res):
+                raise Unsupported("typedlist given %s: %r" % (what, res if ok else type(res).__name__))
+        if _try(u16, [70000])[0] or _try(u16, v_l([70000]))[0]:
+            raise Unsupported("uint16[] accepts 70000")
+    falsy = {_try(u16, v)[0] for v in (0, "", False, 0.0)}
+    if falsy == {True} and list(u16(0)) == []:
+        tl_falsy = True
+    elif falsy == {False} or (not _try(u16, 0)[0] and u16("") == []):
+        tl_falsy = False
+    else:
+        raise Unsupported("typedlist given falsy values: %r" % falsy)
+    if not _try(u16, 5)[0] is False or _try(u16, None)[0] is False or list(u16(None)) != []:
+        raise Unsupported("typedlist(5) / typedlist(None) behave unexpectedly")
+    if list(u16.default()) != [] or type(u16.default()) is not u16:
+        raise Unsupported("typedlist.default() is not an empty list of the class")
+    return convert, tl_falsy
+
+
+def observe_datetime(ft):
+    import datetime as _pydt
+    naive = _pydt.datetime(2020, 1, 2, 3, 4, 5)
+    from_obj = ft.datetime(naive)
+    from_text = ft.datetime("2020-01-02T03:04:05")
+    from_aware = ft.datetime(naive.replace(tzinfo=_pydt.timezone(_pydt.timedelta(hours=2))))
+    if from_aware.utcoffset() != _pydt.timedelta(hours=2) or from_aware.replace(tzinfo=None) != naive:
+        raise Unsupported("datetime(aware) changes the value")
+    if ft.datetime(0).utcoffset() != _pydt.timedelta(0):
+        raise Unsupported("datetime(0) is not UTC")
+    for d in (from_obj, from_text):
+        if d.replace(tzinfo=None) != naive or d.utcoffset() not in (None, _pydt.timedelta(0)):
+            raise Unsupported("datetime(naive) changes the wall clock or picks another zone: %r" % d)
+    obj_utc = from_obj.utcoffset() is not None
+    text_utc = from_text.utcoffset() is not None
+    # (naive object aware?, naive text aware?) -> (arg rule, final rule); text can only be fixed by the final rule
+    if text_utc:
+        return None, True            # the argument rule is not observable behind the final fix-up
+    return obj_utc, False
+
+
+def observe_ip(ip):
+    good = [(ip.ipaddress, "1.2.3.4"), (ip.ipaddress, "::1"), (ip.ipaddress, 1), (ip.ipaddress, b"\x01\x02\x03\x04"),
+            (ip.ipnetwork, "10.0.0.0/8"), (ip.ipnetwork, "::/0")]
+    bad = [(ip.ipaddress, "1.2.3"), (ip.ipaddress, -1), (ip.ipaddress, 2 ** 128), (ip.ipaddress, b"abc"), (ip.ipaddress, None),
+           (ip.ipnetwork, "10.0.0.1/8"), (ip.ipnetwork, "x"), (ip.ipnetwork, None)]
+    import ipaddress as _ipa
+    for cls, v in good:
+        ok, o = _try(cls, v)
+        ref = (_ipa.ip_address if cls is ip.ipaddress else _ipa.ip_network)(v)
+        if not ok or o.val != ref or type(o.val) is not type(ref):
+            raise Unsupported("%s(%r) is not ipaddress' answer" % (cls.__name__, v))
+    for cls, v in bad:
+        if _try(cls, v)[0]:
+            raise Unsupported("%s(%r) is accepted" % (cls.__name__, v))
+
+
+def _recognise(f, *a):
+    """a shape recogniser as cross-check: its answer, or None when it does not recognise the spelling"""
+    try:
+        return f(*a), None
+    except Unsupported as e:
+        return None, str(e)
+
+
+def _agree(what, observed, recognised, why, notes):
+    if recognised is None:
+        notes.append("%s: shape not recognised (%s); observed behaviour used" % (what, (why or "").split(" (")[0][:120]))
+    elif recognised != observed:
+        raise Unsupported("%s: the source reads as %r but the observed behaviour is %r" % (what, recognised, observed))
+    return observed
+
+
+def _int_interval(b):
+    return (b[0] if b[1] == "LoLt" else b[0] + 1, b[2] if b[3] == "HiGt" else b[2] - 1)
+
+
 def gen_coerce():
+    global _CONST_MODULE
     import flow.record.base as base
     import flow.record.fieldtypes as ft
     import flow.record.fieldtypes.net.ip as ip
+    _CONST_MODULE = ft
+    notes = []
 
     bounds = {}
     keeps = {}
@@ -641,20 +943,32 @@ def gen_coerce():
     for name in ("uint16", "uint32", "boolean"):
         cls = getattr(ft, name)
         _plain_int_class(cls)
-        b, integral[name], assigned, var = range_check(cls.__init__)
-        bounds[name] = b
+        bounds[name], integral[name] = observe_range(cls, name)
+        rec, why = _recognise(range_check, cls.__init__)
         if name == "boolean":
-            if not (isinstance(assigned, ast.Call) and _is_name(assigned.func, "bool") and len(assigned.args) == 1
-                    and _is_name(assigned.args[0], var)):
-                raise Unsupported("boolean.__init__ does not store bool(value)")
+            for v in (0, 1, True, False, 1.0):
+                if _try(cls, v)[0] and type(cls(v).value) is not bool:
+                    raise Unsupported("boolean(%r).value is a %s" % (v, type(cls(v).value).__name__))
         else:
+            keeps[name] = observe_uint_keeps(cls, name, integral[name])
+        if rec is None:
+            notes.append("%s.__init__: shape not recognised (%s); observed behaviour used" % (name, why.split(" (")[0][:120]))
+            continue
+        rb, rint, assigned, var = rec
+        same = (rb == bounds[name]) if not integral[name] else (_int_interval(rb) == _int_interval(bounds[name]))
+        if not same or rint != integral[name]:
+            raise Unsupported("%s.__init__: the source reads as bounds %r integrality %r but the observed behaviour is %r / %r" % (
+                name, rb, rint, bounds[name], integral[name]))
+        if name != "boolean":
             if _is_name(assigned, var):
-                keeps[name] = True
+                rk = True
             elif (isinstance(assigned, ast.Call) and _is_name(assigned.func, "int") and len(assigned.args) == 1
                   and (_is_name(assigned.args[0], var) or _is_name(assigned.args[0], "self"))):
-                keeps[name] = False
+                rk = False
             else:
-                raise Unsupported("%s.__init__ stores `%s`" % (name, ast.unparse(assigned)))
+                rk = None
+            if rk is not None and rk != keeps[name]:
+                raise Unsupported("%s.__init__ reads as keeping %s but .value behaves otherwise" % (name, "the argument" if rk else "int(self)"))
     if keeps["uint16"] != keeps["uint32"] or integral["uint16"] != integral["uint32"]:
         raise Unsupported("uint16 and uint32 differ in their integrality test or in what they keep as .value")
     # the port types are uint16 without changes
@@ -676,14 +990,25 @@ def gen_coerce():
     if ip.IPAddress is not ip.ipaddress or ip.IPNetwork is not ip.ipnetwork:
         raise Unsupported("net.IPAddress / net.IPNetwork are not aliases")
 
-    bytes_isinstance = bytes_fact(ft)
-    str_decodes = string_fact(ft)
-    else_empty, lens = digest_facts(ft)
-    guard_none, before = setattr_facts(base)
-    tl_convert, tl_falsy = typedlist_facts(ft)
-    arg_utc, final_utc = datetime_facts(ft)
-    ip_facts(ip)
-    grouped = grouped_facts(base)
+    bytes_isinstance = _agree("bytes.__init__", observe_bytes(ft), *_recognise(bytes_fact, ft), notes)
+    str_decodes = _agree("string.__new__", observe_string(ft), *_recognise(string_fact, ft), notes)
+    else_empty, lens = _agree("digest", observe_digest(ft), *_recognise(digest_facts, ft), notes)
+    guard_none, before = _agree("Record.__setattr__", observe_setattr(base, ft), *_recognise(setattr_facts, base), notes)
+    tl_convert, tl_falsy = _agree("typedlist", observe_typedlist(base, ft), *_recognise(typedlist_facts, ft), notes)
+    o_arg, final_utc = observe_datetime(ft)
+    rec, why = _recognise(datetime_facts, ft)
+    if rec is None:
+        notes.append("datetime.__new__: shape not recognised (%s); observed behaviour used" % why.split(" (")[0][:120])
+        arg_utc = True if o_arg is None else o_arg     # behind the final fix-up either spelling of the argument rule behaves the same
+    else:
+        if rec[1] != final_utc or (o_arg is not None and rec[0] != o_arg):
+            raise Unsupported("datetime.__new__: the source reads as %r but the observed behaviour is %r" % (rec, (o_arg, final_utc)))
+        arg_utc = rec[0]
+    observe_ip(ip)
+    rec, why = _recognise(ip_facts, ip)
+    if why:
+        notes.append("ipaddress / ipnetwork __init__: shape not recognised (%s); observed behaviour used" % why.split(" (")[0][:120])
+    grouped = _agree("GroupedRecord.__setattr__", observe_grouped(base, ft), *_recognise(grouped_facts, base), notes)
     ltable = list_class_table()
 
     def cbound(b):
@@ -691,7 +1016,10 @@ def gen_coerce():
 
     out = HEADER
     out += "From Coq Require Import List Bool ZArith String.\nImport ListNotations.\nFrom FR Require Import Coerce.\n\n"
-    out += "(* flow/record/fieldtypes/__init__.py, flow/record/base.py: see tools/vf/factgen/c05.py for what each field is read from *)\n"
+    out += "(* flow/record/fieldtypes/__init__.py, flow/record/base.py: every field is OBSERVED on probe values (tools/vf/factgen/c05.py);\n"
+    out += "   the source shapes are read as a cross-check *)\n"
+    for n in notes:
+        out += "(* note: %s *)\n" % n.replace("*)", "* )").replace("(*", "( *").replace('"', "'")
     out += "Definition gen_facts : facts :=\n  {| f_uint16 := %s;\n     f_uint32 := %s;\n     f_boolean := %s;\n" % (
         cbound(bounds["uint16"]), cbound(bounds["uint32"]), cbound(bounds["boolean"]))
     out += "     f_uint_integral := %s;\n     f_bool_integral := %s;\n" % (cbool(integral["uint16"]), cbool(integral["boolean"]))
